@@ -4,7 +4,7 @@ From Emmet Require Import lib.Base model.MarkupTokenizer model.MarkupParser mode
      model.OutStream model.FormatHtml model.FormatIndent model.MarkupExpand
      proofs.TextSpec proofs.TextProofs proofs.TextLiteral proofs.AttrProofs proofs.AttrText proofs.AttrTextParse
      proofs.AttrTextConvert proofs.AttrTextExpand proofs.NumberingProofs proofs.TextNested.
-From Emmet Require proofs.ExpandTree.
+From Emmet Require proofs.ExpandTree proofs.LoremFill.
 Local Open Scope nat_scope.
 
 Lemma transform_pre_text cfg pn top (name : str) (V : option (list vtok)) :
@@ -33,7 +33,11 @@ Proof.
   assert (Hw : walk_resolve (S (length (mc_snippets cfg))) cfg [] [node] = Ok [node]).
   { unfold node. destruct name as [|c0 nm] eqn:En; [congruence|].
     cbn [walk_resolve]. rewrite Hsnip. reflexivity. }
-  rewrite Hw. cbn [bind transform_list].
+  rewrite Hw. cbn [bind].
+  assert (Hfree : forallb LoremFill.lorem_free [node] = true).
+  { unfold node. cbn [forallb]. rewrite LoremFill.lorem_free_eq. unfold lorem_header.
+    destruct name as [|c0 nm]; [congruence|]. rewrite Hlorem. reflexivity. }
+  rewrite (LoremFill.transform_list_free cfg [node] Hfree). cbn [transform_forest].
   assert (Ht : transform_tree cfg None true false [] node = Ok (node, false, [])).
   { unfold node at 1. rewrite ExpandTree.transform_tree_eq. cbv zeta. cbn [andb].
     fold node. unfold transform_node. unfold node at 1. rewrite (transform_pre_text cfg None true name _ Hne Hlorem). rewrite Hbem.
